@@ -1655,6 +1655,10 @@ func (self *Fork) expandForkFromObj(
 			self.forkId[i] = part
 		}
 		part.Id = emptyFork{}
+		if part.Range == nil && !split.Source.KnownLength() {
+			// A null collection has no elements.
+			part.Range = arrayLengthRange(0)
+		}
 		self.updateId(self.forkId)
 		self.writeDisable()
 		return nil, nil
